@@ -1055,6 +1055,10 @@ impl<'a> World<'a> {
                     }
                 });
                 self.stats.probe("non_default_sighash");
+            } else if sv == 10 && taproot {
+                // the instruction "sign with SIGHASH_DEFAULT", written out (PSBT_IN_SIGHASH_TYPE = 0)
+                psbt.inputs[i].sighash_type = Some(bitcoin::TapSighashType::Default.into());
+                self.stats.probe("explicit_sighash_default");
             }
         }
         // updater role
